@@ -11,6 +11,8 @@ def main():
     a = ap.parse_args()
     mod = importlib.import_module('pv.props.' + a.prop)
     prop = mod.PROP
+    from . import meta
+    meta.apply(prop)
     if a.replay:
         sys.exit(runner.replay_file(prop, a.replay))
     if a.record_expected:
